@@ -165,9 +165,25 @@ fn vis_cases_at(out: &mut Out, root: &str, modpath: &str, decls: &[(&str, String
         names.extend(vs.iter().cloned());
     }
     names.extend(extra_names.iter().map(|s| s.to_string()));
+    // aliases: a pub name of the module other than the imported one (the alias must not stand in for the
+    // imported name in the visibility question), and a name the module does not have at all
+    let pub_names: Vec<String> = decls.iter().filter(|d| d.2).map(|d| d.1.clone()).collect();
     for name in names {
-        for form in ["from", "module"] {
-            let line = if form == "from" { format!("from {modpath} import {name}") } else { format!("import {}::{name}", modpath.replace('.', "::")) };
+        let mut forms: Vec<String> = vec!["from".into(), "module".into()];
+        let mut aliases: Vec<String> = vec!["zz_alias".into()];
+        if let Some(p) = pub_names.iter().find(|p| **p != name) { aliases.push(p.clone()); }
+        if let Some(p) = decls.iter().find(|d| !d.2 && d.1 != name) { aliases.push(p.1.clone()); }
+        for a in &aliases {
+            forms.push(format!("fromas-{a}"));
+            forms.push(format!("moduleas-{a}"));
+        }
+        for form in forms.iter().map(|s| s.as_str()) {
+            let line = match form.split_once('-') {
+                None if form == "from" => format!("from {modpath} import {name}"),
+                None => format!("import {}::{name}", modpath.replace('.', "::")),
+                Some(("fromas", a)) => format!("from {modpath} import {name} as {a}"),
+                Some((_, a)) => format!("import {}::{name} as {a}", modpath.replace('.', "::")),
+            };
             let _ = std::fs::remove_dir_all(root);
             let file = format!("{root}/{}.incn", modpath.replace('.', "/"));
             std::fs::create_dir_all(std::path::Path::new(&file).parent().expect("parent")).expect("mkdir");
